@@ -100,16 +100,14 @@ def simplifySpec (hyp : Nat) (gin : G) (out : Array String) : String :=
 
 /-! ### Spec of the invariance case -/
 
-def keyOf (s : RawSym) : Option DSymData :=
-  match s.toSym with
-  | .ok sym =>
-    (match Mor.minimalImage sym with
-     | .ok m =>
-       (match DS.canonical m with
-        | .ok c => some c
-        | _ => none)
-     | _ => none)
-  | _ => none
+/-- tables of a Spec symbol -/
+def symOfG (g : G) : SpecC03.Sym :=
+  { size := g.size, dim := g.dim,
+    op := (g.chambers.flatMap fun d => g.indices.map fun i => g.op i d).toArray,
+    v := ((List.range g.dim).flatMap fun i => g.chambers.map fun d => g.v i d).toArray }
+
+/-- the minimal image of a result, by partition refinement (Spec) -/
+def keyOf (s : RawSym) : SpecC03.Sym := symOfG (SpecC16.minimalImage (specOfRaw s))
 
 /-- one result of the invariance case: `N` or `D result key` -/
 def P.invItem : P (Option (RawSym × RawSym)) := do
@@ -133,13 +131,17 @@ def invSpec (n : Nat) (out : Array String) : String :=
     else
       let rs := items.filterMap id
       let keys := rs.map (fun rk => keyOf rk.1)
+      let libKeys := rs.map (fun rk => c03Sym rk.2)
       check [
-        ("canonical-minimal-image-computable", keys.all (·.isSome)),
-        ("canonical-minimal-image-equal-across-numberings-and-runs", allEq keys),
-        ("library-key-equal-across-numberings-and-runs", allEq (rs.map fun rk => (rk.2.size, rk.2.dim, rk.2.op, rk.2.v))),
-        ("library-key-isomorphic-to-independent-key",
-          match rs.head?, keys.head? with
-          | some rk, some (some k) => SpecC03.isomorphic (c03Sym rk.2) (c03Sym (rawOfSym k))
+        ("results-connected", rs.all fun rk => SpecC16.connected (specOfRaw rk.1)),
+        ("minimal-images-isomorphic-across-numberings-and-runs",
+          match keys with
+          | [] => true
+          | k :: ks => k.wellFormed && ks.all (fun k' => SpecC03.isomorphic k k')),
+        ("library-key-equal-across-numberings-and-runs", allEq libKeys),
+        ("library-key-isomorphic-to-independent-minimal-image",
+          match libKeys.head?, keys.head? with
+          | some lk, some k => SpecC03.isomorphic k lk
           | _, _ => false) ]
   | _ => fail "unreadable-result"
 
